@@ -136,8 +136,10 @@ type pool struct {
 	seqs      []geom.Sequence
 	envs      []geom.Envelope
 	trees     []*rtree.RTree
-	items     [][]rtree.BulkItem // what each tree was loaded from (model copy)
-	bufs      []sharedBuf        // encoded documents shared by all tasks (in the frozen region)
+	items     [][]rtree.BulkItem    // what each tree was loaded from (model copy)
+	feats     []geom.GeoJSONFeature // shared features (their property maps are shared state)
+	pubF      []string
+	bufs      []sharedBuf // encoded documents shared by all tasks (in the frozen region)
 	pubB      []uint64
 	pubG      []string // digests at publication
 	pubS      []string
@@ -311,6 +313,17 @@ func buildPool(m *vs.Stream, freeze bool) (*pool, error) {
 		}
 		p.trees = append(p.trees, tr)
 	}
+	// shared GeoJSON features: a feature value is copied freely, its maps are not
+	for i := 0; i < 2 && i < len(p.geoms); i++ {
+		f := geom.GeoJSONFeature{Geometry: p.geoms[i], ID: []interface{}{"id-1", 7.0}[i],
+			Properties: map[string]interface{}{"name": "x", "n": 1.5, "nested": map[string]interface{}{"a": []interface{}{1.0, "b"}}}}
+		if i == 0 {
+			f.ForeignMembers = map[string]interface{}{"geometry_name": "g", "zoom": 3.0}
+		} else {
+			f.ForeignMembers = map[string]interface{}{"id": "shadow", "crs": nil}
+		}
+		p.feats = append(p.feats, f)
+	}
 	// shared encoded documents: real encodings of pool geometries (WKB also
 	// big- and mixed-endian, as foreign producers emit) and grammar-generated
 	// text documents no encoder emits
@@ -401,6 +414,9 @@ func buildPool(m *vs.Stream, freeze bool) (*pool, error) {
 	for _, b := range p.bufs {
 		p.pubB = append(p.pubB, fnv64(b.b))
 	}
+	for _, f := range p.feats {
+		p.pubF = append(p.pubF, digestOf(f))
+	}
 	return p, nil
 }
 
@@ -416,6 +432,11 @@ func (p *pool) verify() (msg string) {
 	for i, b := range p.bufs {
 		if fnv64(b.b) != p.pubB[i] {
 			return fmt.Sprintf("shared %s input buffer %d changed", b.format, i)
+		}
+	}
+	for i, f := range p.feats {
+		if d := digestOf(f); d != p.pubF[i] {
+			return fmt.Sprintf("feature operand %d changed: was %s now %s", i, clipS(p.pubF[i], 300), clipS(d, 300))
 		}
 	}
 	for i, g := range p.geoms {
